@@ -173,6 +173,13 @@ func (vc *VC) evalModClauses(clauses []Clause, env *Env) []modTarget {
 				out = append(out, modTarget{kind: "ghost", heap: e.Fn, ref: env.eval(e.Args[0]).term(), what: m.Text})
 			case "Wout":
 				out = append(out, modTarget{kind: "ghost", heap: "Wout", ref: env.eval(e.Args[0]).term(), what: m.Text})
+			case "file":
+				r := env.eval(e).term()
+				for _, h := range []string{"Fdata", "Flen", "Fpos"} {
+					out = append(out, modTarget{kind: "ghost", heap: h, ref: r, what: m.Text})
+				}
+			case "Fpos", "Flen":
+				out = append(out, modTarget{kind: "ghost", heap: e.Fn, ref: env.eval(e.Args[0]).term(), what: m.Text})
 			case "map":
 				mv := env.eval(e.Args[0])
 				sh := shapeOf(mv.T)
